@@ -64,3 +64,413 @@ func H_C19_autocut() {
 		vCover("enabled")
 	}
 }
+
+func init() {
+	vHarnesses["H_C19_agg_vector"] = H_C19_agg_vector
+	vHarnesses["H_C19_agg_text"] = H_C19_agg_text
+	vHarnesses["H_C19_agg_perm"] = H_C19_agg_perm
+	vHarnesses["H_C19_agg_nan"] = H_C19_agg_nan
+	vHarnesses["H_C19_fusion"] = H_C19_fusion
+	vHarnesses["H_C19_merge"] = H_C19_merge
+}
+
+var vAggKinds = []ScoreAggregationKind{SumAggregation, MaxAggregation, MeanAggregation}
+
+// expected aggregate of the scores (in input order) by the documented rule
+func vAggExpect(kind ScoreAggregationKind, scores []float32) float32 {
+	switch kind {
+	case SumAggregation, MeanAggregation:
+		sum := float32(0)
+		for _, s := range scores {
+			sum += s
+		}
+		if kind == SumAggregation {
+			return sum
+		}
+		return sum / float32(len(scores))
+	}
+	return 0
+}
+
+// checks "res is the maximum of scores" definitionally (non-NaN scores)
+func vAssertIsMax(res float32, scores []float32, label string) {
+	isOne := false
+	for _, s := range scores {
+		vAssert(!(s > res), label+"-upper-bound")
+		isOne = vOr(isOne, res == s)
+	}
+	vAssert(isOne, label+"-attained")
+}
+
+const vAggN = 4 // entries per list (quick); ids drawn from {1,2,3}
+
+func vAggInputs(n int) ([]uint32, []float32) {
+	ids := make([]uint32, n)
+	scores := make([]float32, n)
+	for i := 0; i < n; i++ {
+		ids[i] = uint32(vChoose(vName("id", i), 3) + 1)
+		scores[i] = vF32(vName("s", i))
+		vAssume(scores[i] == scores[i]) // NaN inputs: see H_C19_agg_nan
+	}
+	return ids, scores
+}
+
+func vGroup(ids []uint32, scores []float32) (order []uint32, by map[uint32][]float32) {
+	by = map[uint32][]float32{}
+	for i, id := range ids {
+		if _, ok := by[id]; !ok {
+			order = append(order, id)
+		}
+		by[id] = append(by[id], scores[i])
+	}
+	return
+}
+
+func H_C19_agg_vector() {
+	kind := vAggKinds[vChoose("kind", 3)]
+	n := vChoose("n", vAggN+1)
+	ids, scores := vAggInputs(n)
+	in := make([]VectorResult, n)
+	for i := range in {
+		in[i] = VectorResult{Node: *NewVectorNodeWithID(ids[i], nil), Score: scores[i]}
+	}
+	agg, err := NewVectorAggregation(kind)
+	vAssert(err == nil, "agg-constructor")
+	out := agg.Aggregate(in)
+	order, by := vGroup(ids, scores)
+	vAssert(len(out) == len(order), "agg-each-id-once-count")
+	for _, id := range order {
+		cnt := 0
+		for _, r := range out {
+			if r.GetId() == id {
+				cnt++
+				if kind == MaxAggregation {
+					vAssertIsMax(r.Score, by[id], "agg-max")
+				} else {
+					vAssert(vSameF32(r.Score, vAggExpect(kind, by[id])), "agg-value")
+				}
+			}
+		}
+		vAssert(cnt == 1, "agg-each-id-once")
+	}
+	for i := 1; i < len(out); i++ {
+		// best-first for distances = ascending; NaN aggregates (Inf-Inf) have no order
+		vAssert(vOr(!(out[i].Score < out[i-1].Score), vOr(out[i].Score != out[i].Score, out[i-1].Score != out[i-1].Score)), "agg-vector-ascending")
+	}
+	if n >= 2 {
+		vCover("n>=2")
+	}
+}
+
+func H_C19_agg_text() {
+	kind := vAggKinds[vChoose("kind", 3)]
+	n := vChoose("n", vAggN+1)
+	ids, scores := vAggInputs(n)
+	in := make([]TextResult, n)
+	for i := range in {
+		in[i] = TextResult{Id: ids[i], Score: scores[i]}
+	}
+	agg, err := NewTextAggregation(kind)
+	vAssert(err == nil, "agg-constructor")
+	out := agg.Aggregate(in)
+	order, by := vGroup(ids, scores)
+	vAssert(len(out) == len(order), "agg-each-id-once-count")
+	for _, id := range order {
+		cnt := 0
+		for _, r := range out {
+			if r.Id == id {
+				cnt++
+				if kind == MaxAggregation {
+					vAssertIsMax(r.Score, by[id], "agg-max")
+				} else {
+					vAssert(vSameF32(r.Score, vAggExpect(kind, by[id])), "agg-value")
+				}
+			}
+		}
+		vAssert(cnt == 1, "agg-each-id-once")
+	}
+	for i := 1; i < len(out); i++ {
+		vAssert(vOr(!(out[i].Score > out[i-1].Score), vOr(out[i].Score != out[i].Score, out[i-1].Score != out[i-1].Score)), "agg-text-descending")
+	}
+	if n >= 2 {
+		vCover("n>=2")
+	}
+}
+
+// Order independence: the id -> score map does not depend on the order of the
+// input list.  Exact for max (any multiplicity <= 3) and for sum / mean with at
+// most two occurrences per id ((0+a)+b = (0+b)+a is an IEEE identity, closed at
+// T2); tolerance beyond that is not claimed.
+func H_C19_agg_perm() {
+	kind := vAggKinds[vChoose("kind", 3)]
+	text := vChoose("modality", 2) == 1
+	occ := 2
+	if kind == MaxAggregation {
+		occ = 2 + vChoose("occ", 2)
+	}
+	scores := make([]float32, occ)
+	for i := range scores {
+		scores[i] = vF32(vName("s", i))
+		vAssume(scores[i] == scores[i])
+	}
+	other := vF32("other")
+	vAssume(other == other)
+	// list A: id 1 occurrences in order, id 2 in the middle; list B: id 1 occurrences reversed, id 2 first
+	run := func(rev bool) (float32, float32) {
+		var ids []uint32
+		var ss []float32
+		if rev {
+			ids = append(ids, 2)
+			ss = append(ss, other)
+			for i := occ - 1; i >= 0; i-- {
+				ids = append(ids, 1)
+				ss = append(ss, scores[i])
+			}
+		} else {
+			ids = append(ids, 1)
+			ss = append(ss, scores[0])
+			ids = append(ids, 2)
+			ss = append(ss, other)
+			for i := 1; i < occ; i++ {
+				ids = append(ids, 1)
+				ss = append(ss, scores[i])
+			}
+		}
+		var r1, r2 float32
+		if text {
+			in := make([]TextResult, len(ids))
+			for i := range in {
+				in[i] = TextResult{Id: ids[i], Score: ss[i]}
+			}
+			agg, _ := NewTextAggregation(kind)
+			for _, r := range agg.Aggregate(in) {
+				if r.Id == 1 {
+					r1 = r.Score
+				} else {
+					r2 = r.Score
+				}
+			}
+		} else {
+			in := make([]VectorResult, len(ids))
+			for i := range in {
+				in[i] = VectorResult{Node: *NewVectorNodeWithID(ids[i], nil), Score: ss[i]}
+			}
+			agg, _ := NewVectorAggregation(kind)
+			for _, r := range agg.Aggregate(in) {
+				if r.GetId() == 1 {
+					r1 = r.Score
+				} else {
+					r2 = r.Score
+				}
+			}
+		}
+		return r1, r2
+	}
+	a1, a2 := run(false)
+	b1, b2 := run(true)
+	vAssert(vSameF32(a1, b1), "agg-order-independent")
+	vAssert(vSameF32(a2, b2), "agg-order-independent-single")
+	vCover("perm")
+}
+
+// NaN / Inf scores: aggregation never panics and still returns each id once.
+func H_C19_agg_nan() {
+	kind := vAggKinds[vChoose("kind", 3)]
+	text := vChoose("modality", 2) == 1
+	n := 3
+	ids := make([]uint32, n)
+	ss := make([]float32, n)
+	for i := 0; i < n; i++ {
+		ids[i] = uint32(vChoose(vName("id", i), 2) + 1)
+		ss[i] = vF32(vName("s", i)) // any float32, NaN and Inf included
+	}
+	order, _ := vGroup(ids, ss)
+	if text {
+		in := make([]TextResult, n)
+		for i := range in {
+			in[i] = TextResult{Id: ids[i], Score: ss[i]}
+		}
+		agg, _ := NewTextAggregation(kind)
+		out := agg.Aggregate(in)
+		vAssert(len(out) == len(order), "agg-nan-each-id-once")
+	} else {
+		in := make([]VectorResult, n)
+		for i := range in {
+			in[i] = VectorResult{Node: *NewVectorNodeWithID(ids[i], nil), Score: ss[i]}
+		}
+		agg, _ := NewVectorAggregation(kind)
+		out := agg.Aggregate(in)
+		vAssert(len(out) == len(order), "agg-nan-each-id-once")
+	}
+	vCover("nan-run")
+}
+
+var vFusionKinds = []FusionKind{WeightedSumFusion, ReciprocalRankFusion, MaxFusion, MinFusion}
+
+// Fusion: key sets, values by the definitional formula, inputs not mutated.
+func H_C19_fusion() {
+	kind := vFusionKinds[vChoose("fusion", 4)]
+	// each of ids 1..3 is in the vector map, the text map, both or neither
+	vec := map[uint32]float64{}
+	txt := map[uint32]float64{}
+	for id := uint32(1); id <= 3; id++ {
+		m := vChoose(vName("member", int(id)), 4)
+		if m&1 != 0 {
+			vec[id] = vF64(vName("v", int(id)))
+			vAssume(vec[id] == vec[id])
+		}
+		if m&2 != 0 {
+			txt[id] = vF64(vName("t", int(id)))
+			vAssume(txt[id] == txt[id])
+		}
+	}
+	cfg := &FusionConfig{VectorWeight: vF64("wv"), TextWeight: vF64("wt"), K: vF64("K")}
+	vAssume(cfg.K > 0)
+	vAssume(vFinite64(cfg.K))
+	if kind == ReciprocalRankFusion {
+		// exact-value clause: distinct scores within a modality (ties get only the key-set law)
+		for a := uint32(1); a <= 3; a++ {
+			for b := a + 1; b <= 3; b++ {
+				if _, ok := vec[a]; ok {
+					if _, ok2 := vec[b]; ok2 {
+						vAssume(vec[a] != vec[b])
+					}
+				}
+				if _, ok := txt[a]; ok {
+					if _, ok2 := txt[b]; ok2 {
+						vAssume(txt[a] != txt[b])
+					}
+				}
+			}
+		}
+	}
+	vecCopy := map[uint32]float64{}
+	for k, v := range vec {
+		vecCopy[k] = v
+	}
+	txtCopy := map[uint32]float64{}
+	for k, v := range txt {
+		txtCopy[k] = v
+	}
+	f, err := NewFusion(kind, cfg)
+	vAssert(err == nil, "fusion-constructor")
+	out := f.Combine(vec, txt)
+	// inputs not mutated
+	vAssert(len(vec) == len(vecCopy) && len(txt) == len(txtCopy), "fusion-inputs-not-mutated-len")
+	for k, v := range vecCopy {
+		vAssert(vSameF64(vec[k], v), "fusion-inputs-not-mutated")
+	}
+	for k, v := range txtCopy {
+		vAssert(vSameF64(txt[k], v), "fusion-inputs-not-mutated")
+	}
+	rank := func(m map[uint32]float64, id uint32, ascending bool) int {
+		r := 0
+		for o, s := range m {
+			if o == id {
+				continue
+			}
+			if ascending && s < m[id] {
+				r++
+			}
+			if !ascending && s > m[id] {
+				r++
+			}
+		}
+		return r
+	}
+	for id := uint32(1); id <= 3; id++ {
+		v, inV := vec[id]
+		t, inT := txt[id]
+		got, inOut := out[id]
+		switch kind {
+		case MinFusion:
+			vAssert(inOut == (inV && inT), "fusion-min-intersection")
+			if inOut {
+				vAssert(vAnd(!(got > v), !(got > t)), "fusion-min-lower")
+				vAssert(vOr(got == v, got == t), "fusion-min-attained")
+			}
+		case MaxFusion:
+			vAssert(inOut == (inV || inT), "fusion-union")
+			if inV && inT {
+				vAssert(vAnd(!(got < v), !(got < t)), "fusion-max-upper")
+				vAssert(vOr(got == v, got == t), "fusion-max-attained")
+			} else if inV {
+				vAssert(vSameF64(got, v), "fusion-max-single")
+			} else if inT {
+				vAssert(vSameF64(got, t), "fusion-max-single")
+			}
+		case WeightedSumFusion:
+			vAssert(inOut == (inV || inT), "fusion-union")
+			if inV && inT {
+				vAssert(vSameF64(got, v*cfg.VectorWeight+t*cfg.TextWeight), "fusion-weighted-sum")
+			} else if inV {
+				vAssert(vSameF64(got, v*cfg.VectorWeight), "fusion-weighted-sum")
+			} else if inT {
+				vAssert(vSameF64(got, t*cfg.TextWeight), "fusion-weighted-sum")
+			}
+		case ReciprocalRankFusion:
+			vAssert(inOut == (inV || inT), "fusion-union")
+			if inV && inT {
+				vAssert(vSameF64(got, 1.0/(cfg.K+float64(rank(vec, id, true)))+1.0/(cfg.K+float64(rank(txt, id, false)))), "fusion-rrf")
+			} else if inV {
+				vAssert(vSameF64(got, 1.0/(cfg.K+float64(rank(vec, id, true)))), "fusion-rrf")
+			} else if inT {
+				vAssert(vSameF64(got, 1.0/(cfg.K+float64(rank(txt, id, false)))), "fusion-rrf")
+			}
+		}
+	}
+	vAssert(len(out) <= 3, "fusion-no-foreign-keys")
+	for k := range out {
+		vAssert(k >= 1 && k <= 3, "fusion-no-foreign-keys")
+	}
+	if len(vec) > 0 && len(txt) > 0 {
+		vCover("both-nonempty")
+	}
+	if len(vec) == 0 || len(txt) == 0 {
+		vCover("one-empty")
+	}
+}
+
+// mergeResults: each id once with its highest score; nil on empty.
+func H_C19_merge() {
+	n := vChoose("n", 5)
+	in := make([]HybridSearchResult, n)
+	for i := range in {
+		in[i] = HybridSearchResult{ID: uint32(vChoose(vName("id", i), 3) + 1), Score: vF64(vName("s", i))}
+		vAssume(in[i].Score == in[i].Score)
+	}
+	out := mergeResults(in)
+	if n == 0 {
+		vAssert(out == nil, "merge-nil-on-empty")
+		vCover("empty")
+		return
+	}
+	seen := map[uint32]bool{}
+	for _, r := range in {
+		seen[r.ID] = true
+	}
+	vAssert(len(out) == len(seen), "merge-each-id-once-count")
+	for id := range seen {
+		cnt := 0
+		for _, r := range out {
+			if r.ID == id {
+				cnt++
+				attained := false
+				for _, x := range in {
+					if x.ID == id {
+						vAssert(!(x.Score > r.Score), "merge-highest")
+						attained = vOr(attained, r.Score == x.Score)
+					}
+				}
+				vAssert(attained, "merge-attained")
+			}
+		}
+		vAssert(cnt == 1, "merge-each-id-once")
+	}
+	cp := append([]HybridSearchResult(nil), out...)
+	sortResultsByScore(cp)
+	for i := 1; i < len(cp); i++ {
+		vAssert(!(cp[i].Score > cp[i-1].Score), "sort-descending")
+	}
+	vCover("nonempty")
+}
